@@ -24,6 +24,9 @@ THEOREMS = {
         'RsomeV.C12.subIdx_spec',
     ],
     'RsomeV.Props.C13': ['RsomeV.C13.mask_respected', 'RsomeV.C13.rule_var_shares'],
+    'RsomeV.Props.C12Call': ['RsomeV.C12Call.buildRvec_unassigned', 'RsomeV.C12Call.buildRvec_last_wins', 'RsomeV.C12Call.buildRvec_slice_only', 'RsomeV.C12Call.buildRvec_split',
+                             'RsomeV.C12Call.buildRvec_comm', 'RsomeV.C12Call.roCall_eq_numpy', 'RsomeV.C12Call.droCall_eq_numpy', 'RsomeV.C12Call.droCall_eq_decCall',
+                             'RsomeV.C12Call.buildRvecsSw_sees_scenario', 'RsomeV.C12Call.buildRvecsSw_sees_common', 'RsomeV.C12Call.series_paths'],
 }
 RULE = ("synthetic solution vectors on random ro models (variables, slices, affine and bi-affine expression trees, every atom with "
         "multiplier/offset chains, decision rules with random masks) and dro models (1-5 scenarios, integer and string labels, random "
@@ -227,7 +230,7 @@ def dro_queries(ctx, seed):
     q(ctx, 'dro model.get', {"seed": seed}, lambda: m.get(), -2.0)
     lst = m.rule_var()
     z0 = r.integers(-2, 3, 2).astype(float)
-    all_consts = []
+    all_consts = []; all_coefs = []
     for x, shp, mask in decs:
         case = {"seed": seed, "S": S, "labels": bool(labels), "events": [list(map(int, e)) for e in x.event_adapt], "shape": list(shp)}
         # expected per-scenario constant part and coefficients, read from the rule_var structure itself
@@ -248,7 +251,7 @@ def dro_queries(ctx, seed):
             exp_coef.append(np.where(mask, coef, np.nan).reshape(tuple(shp) + (2,)))
             exp_val.append(c0 + (coef @ z0).reshape(shp))
         multi = len(x.event_adapt) > 1
-        all_consts.append(exp_const)
+        all_consts.append(exp_const); all_coefs.append(exp_coef)
 
         def series_vals(obj, n=S):
             import pandas as pd
@@ -359,6 +362,32 @@ def dro_queries(ctx, seed):
             except Exception as ex:
                 ctx.hit('query-raises:DecVar.get(rvar)', {"error": type(ex).__name__ + ': ' + str(ex)[:200]}, c2)
     dro_convex_mixed(ctx, decs, all_consts, S, labels, {"seed": seed, "S": S, "labels": bool(labels)})
+    # bi-affine expressions whose deterministic part holds ANOTHER decision - event-wise with its own partition and / or affinely
+    # adaptive: (xe * z[0] + x)(z.assign(...)) is xe_s * z0 + x_s(z) in every scenario, for plain and scenario-wise realisations
+    import pandas as pd
+    xe, ce = decs[-1][0], all_consts[-1]
+    for k_, (x, shp, mask) in enumerate(decs[:-2]):
+        Zs = r.integers(-2, 3, (S, 2)).astype(float); z1 = r.integers(-2, 3, 2).astype(float)
+        coef = [np.where(np.isnan(c_), 0.0, c_) for c_ in all_coefs[k_]]
+        for what, arg, zz in (('DecRoAffine.__call__(other decision in the deterministic part)', lambda: z.assign(z1), [z1] * S),
+                              ('DecRoAffine.__call__(other decision in the deterministic part, scenario-wise)', lambda: z.assign(Zs, sw=True), list(Zs))):
+            ctx.search_cases += 1; ctx.evaluations += 1; ctx.count('query:' + what)
+            c2 = {"seed": seed, "S": S, "query": what, "events_x": [list(map(int, e)) for e in x.event_adapt], "events_xe": [list(map(int, e)) for e in xe.event_adapt],
+                  "shape": list(shp), "affinely_adaptive": bool(mask.any())}
+            ctx.nontriv(c2)
+            ref = [np.asarray(ce[s_] * zz[s_][0] + all_consts[k_][s_] + (coef[s_] @ zz[s_]).reshape(shp)) for s_ in range(S)]
+            try:
+                with C.quiet():
+                    out_ = (xe * z[0] + x)(arg())
+                if isinstance(out_, pd.Series):
+                    want = labels if labels else list(range(S))
+                    got = [np.asarray(v, dtype=float) for v in out_.values] if list(out_.index) == want else None
+                else:
+                    got = [np.asarray(out_, dtype=float)] * S if all(np.allclose(ref[0], v) for v in ref) else None
+            except Exception as ex:
+                ctx.hit('query-raises:' + what, {"error": type(ex).__name__ + ': ' + str(ex)[:200]}, c2); continue
+            if got is None or any(np.asarray(g).reshape(-1).shape != v.reshape(-1).shape or not np.allclose(np.asarray(g).reshape(-1), v.reshape(-1)) for g, v in zip(got, ref)):
+                ctx.hit('wrong-scenario-values:' + what, {"returned": (None if got is None else [np.asarray(g).tolist() for g in got]), "expected": [v.tolist() for v in ref]}, c2)
 
 
 def dro_convex_mixed(ctx, decs, exp_consts, S, labels, case0):
@@ -378,13 +407,14 @@ def dro_convex_mixed(ctx, decs, exp_consts, S, labels, case0):
                     out = (build(xa) + 2 * xb)()
             except Exception as ex:
                 ctx.hit('query-raises:' + what, {"error": type(ex).__name__ + ': ' + str(ex)[:200]}, c2); continue
+            one = lambda v: float(np.asarray(v, dtype=float).reshape(-1)[0])
             if isinstance(out, pd.Series):
                 want = labels if labels else list(range(S))
-                got = [float(v) for v in out.values] if list(out.index) == want else None
+                got = [one(v) for v in out.values] if list(out.index) == want and all(np.size(v) == 1 for v in out.values) else None
             else:
-                got = [float(out)] * S if len(set(round(v, 9) for v in ref)) == 1 else None      # a single number only if all scenarios agree
+                got = [one(out)] * S if (np.size(out) == 1 and len(set(round(v, 9) for v in ref)) == 1) else None   # a single number only if all scenarios agree
             if got is None or not np.allclose(got, ref):
-                ctx.hit('wrong-scenario-values:' + what, {"returned": (out.tolist() if isinstance(out, pd.Series) else float(out)), "expected": ref}, c2)
+                ctx.hit('wrong-scenario-values:' + what, {"returned": str(out)[:200], "expected": ref}, c2)
 
 
 def run(ctx):
@@ -401,6 +431,7 @@ def run(ctx):
         except Exception as ex:
             ctx.count('dro-harness-error:' + type(ex).__name__ + ':' + str(ex)[:40])
     correspondences(ctx)
+    C.run_difftest(ctx, 'test_assign_call.py', ctx.n(40, 600), 'evaluation at assigned realisations: RoAffine / DecRoAffine / DecAffine / DecRule __call__ with whole, sliced, repeated, broadcast and scenario-wise arguments')
 
 
 def correspondences(ctx):
